@@ -35,6 +35,7 @@ pub struct RunOut {
     pub digest: u64,
     /// cumulative event-log digest after each op (skipped ops repeat the previous value)
     pub steplog: Vec<u64>,
+    pub obs_panic: Option<String>,
 }
 
 /// The active property decides which violations are this check's to report.
@@ -54,6 +55,7 @@ pub fn exec<T: Payload>(prop: &str, cfg: &ExecCfg, mut next: impl FnMut(&World<T
     let mut found: Option<Found> = None;
     let mut truncated = false;
     let mut blind_used = false;
+    let mut obs_panic: Option<String> = None;
     if let Some(v) = v0.into_iter().find(|v| owns(prop, v)) {
         found = Some(Found {
             viol: v,
@@ -67,7 +69,16 @@ pub fn exec<T: Payload>(prop: &str, cfg: &ExecCfg, mut next: impl FnMut(&World<T
         if let Some(p) = progress {
             p.publish(&op, ops.len());
         }
-        let out = world.step(&op);
+        let out = match crate::util::catch(|| world.step(&op)) {
+            Ok(o) => o,
+            Err(p) => {
+                // a panic outside the guarded library calls (harness observation code on a damaged
+                // arena, or a harness defect): the run ends, it is counted, never a verdict
+                ops.push(op);
+                obs_panic = Some(p);
+                break;
+            }
+        };
         ops.push(op);
         steplog.push(world.log.0);
         if out.skipped {
@@ -109,7 +120,7 @@ pub fn exec<T: Payload>(prop: &str, cfg: &ExecCfg, mut next: impl FnMut(&World<T
     }
     let digest = world.log.0;
     let stats = std::mem::take(&mut world.stats);
-    let clean = found.is_none() && !truncated;
+    let clean = found.is_none() && !truncated && obs_panic.is_none();
     // end of run: every arena and clone is dropped; the ledger must then hold every payload
     // ever created, exactly once
     drop(world);
@@ -137,6 +148,7 @@ pub fn exec<T: Payload>(prop: &str, cfg: &ExecCfg, mut next: impl FnMut(&World<T
         stats,
         digest,
         steplog,
+        obs_panic,
     }
 }
 
@@ -444,6 +456,8 @@ pub struct BatchOut {
     pub wall: f64,
     pub digests: Vec<(u64, u64)>,
     pub hang: Option<(u64, ExecCfg, Vec<Op>)>,
+    pub obs_panics: u64,
+    pub obs_panic_msg: String,
 }
 
 pub fn run_batch(o: &BatchOpts, want_digests: bool) -> BatchOut {
@@ -463,6 +477,8 @@ pub fn run_batch(o: &BatchOpts, want_digests: bool) -> BatchOut {
         known: BTreeMap<String, (String, u64)>,
         samples: Vec<(u64, usize, bool, Vec<Op>, String)>,
         digests: Vec<(u64, u64)>,
+        obs_panics: u64,
+        obs_panic_msg: String,
     }
     let mut handles = Vec::new();
     for w in 0..o.threads {
@@ -486,6 +502,8 @@ pub fn run_batch(o: &BatchOpts, want_digests: bool) -> BatchOut {
                     known: BTreeMap::new(),
                     samples: Vec::new(),
                     digests: Vec::new(),
+                    obs_panics: 0,
+                    obs_panic_msg: String::new(),
                 };
                 loop {
                     if stop.load(Ordering::Relaxed) {
@@ -504,8 +522,24 @@ pub fn run_batch(o: &BatchOpts, want_digests: bool) -> BatchOut {
                             stop.store(true, Ordering::Relaxed);
                             break;
                         }
-                        let (seed, gcfg, out) = run_generated(&prop, batch, idx, Some(&progress));
+                        let (seed, gcfg, out) = match crate::util::catch(|| run_generated(&prop, batch, idx, Some(&progress))) {
+                            Ok(x) => x,
+                            Err(p) => {
+                                wo.runs += 1;
+                                wo.obs_panics += 1;
+                                if wo.obs_panic_msg.is_empty() {
+                                    wo.obs_panic_msg = format!("run {}: {}", idx, p);
+                                }
+                                continue;
+                            }
+                        };
                         wo.runs += 1;
+                        if let Some(p) = &out.obs_panic {
+                            wo.obs_panics += 1;
+                            if wo.obs_panic_msg.is_empty() {
+                                wo.obs_panic_msg = format!("run {}: {}", idx, p);
+                            }
+                        }
                         wo.stats.merge(&out.stats);
                         if want_digests {
                             wo.digests.push((idx, out.digest));
@@ -584,12 +618,18 @@ pub fn run_batch(o: &BatchOpts, want_digests: bool) -> BatchOut {
         wall: 0.0,
         digests: Vec::new(),
         hang: hang_v,
+        obs_panics: 0,
+        obs_panic_msg: String::new(),
     };
     let mut rs = results.lock().unwrap();
     let mut samples: Vec<(u64, usize, bool, Vec<Op>, String)> = Vec::new();
     for wo in rs.drain(..) {
         out.runs_done += wo.runs;
         out.truncated_foreign += wo.truncated;
+        out.obs_panics += wo.obs_panics;
+        if out.obs_panic_msg.is_empty() {
+            out.obs_panic_msg = wo.obs_panic_msg.clone();
+        }
         out.stats.merge(&wo.stats);
         for v in wo.viols {
             if out.violation.as_ref().map_or(true, |b| v.0 < b.0) {
